@@ -357,8 +357,14 @@ func (p *Prop) Execute(c *sim.Case, env *sim.Env) *sim.Result {
 			// file (2^31 iterations from a ten-digit field): 300 x baseline, scaled by the growth
 			// of the image, plus 2*10^8 steps.
 			ratio := int64(1)
-			if len(d.data) > 0 && len(img) > len(d.data) {
-				ratio = int64(len(img)/len(d.data)) + 1
+			grown := len(img)
+			for _, f := range set {
+				if f.Kind == "stream-repeat" {
+					grown += len(f.S) * int(f.B) // inserted before compression: the image hides it
+				}
+			}
+			if len(d.data) > 0 && grown > len(d.data) {
+				ratio = int64(grown/len(d.data)) + 1
 			}
 			// (squared: walking a subtree once per nesting level is quadratic and still terminates)
 			budget := 300*base[op].steps*ratio*ratio + 200_000_000
@@ -374,7 +380,9 @@ func (p *Prop) Execute(c *sim.Case, env *sim.Env) *sim.Result {
 			}
 			oc := sim.Guard(t, budget, func() error { var err error; h, err = runOp(op, path, img, inj); return err })
 			nEval++
-			if oc.Bad() && env.Tick != nil {
+			if env.Tick != nil && (oc.Bad() || nEval%20 == 0) {
+				// heartbeat: the wall-clock backstop of the runner is meant per evaluation, not
+				// per run (a run of 48 fault sets x several entry points may legitimately take long)
 				env.Tick()
 			}
 			res.Steps += t.Total - before
